@@ -170,14 +170,24 @@ class World:
             reg.stop_worker()
             reg._worker = sco_mod._OperationsWorker(reg, reg._set_service, reg._mdib, reg._log_prefix)  # noqa: SLF001
 
-    def run_sco(self):
-        """Process everything that is queued, in this thread, with the real worker loop."""
+    def run_sco(self, idle_first: bool = False):
+        """Process everything that is queued, in this thread, with the real worker loop.  idle_first: the loop first
+        finds its queue empty once (one second without requests: the worker checks the invocation time-outs)."""
+        import queue as queue_mod
+
         from sdc11073.provider import sco as sco_mod
         for reg in self.provider._sco_operations_registries.values():  # noqa: SLF001
             worker = reg._worker  # noqa: SLF001
             if worker is None or worker.is_alive():
                 continue
             q = worker._operations_queue  # noqa: SLF001
+            if idle_first:
+                real_get = q.get
+
+                def idle_once(*a, q=q, real_get=real_get, **kw):
+                    del q.get  # (instance attribute: the next call is the real one again)
+                    raise queue_mod.Empty
+                q.get = idle_once
             with q.mutex:  # the end marker goes in even when the (bounded) queue is full
                 q.queue.append('stop_sco')
                 q.not_empty.notify()
